@@ -249,8 +249,9 @@ def _is_event_field(ft):
 
 
 def call_clause(fn, env):
-    names = list(inspect.signature(fn).parameters)
-    return fn(*[env[n] for n in names])
+    # (a parameter with a default value is optional: see VCGen._clause_args)
+    params = inspect.signature(fn).parameters
+    return fn(*[env[n] if n in env or p.default is inspect.Parameter.empty else p.default for n, p in params.items()])
 
 
 def flatten(v):
